@@ -84,6 +84,9 @@ func VerifC15_CloseRaces() {
 	_, err := v.s.SyncAdChain(context.Background(), v.peer)
 	verif_Assert(err != nil, "an explicit sync after Close is refused")
 	verif_Assert(v.s.SyncEntries(context.Background(), v.peer, chain[0]) != nil, "an entries sync after Close is refused")
+	_, err = v.s.SyncAdChain(context.Background(), v.peer)
+	verif_Assert(err != nil, "a further explicit sync after Close is refused as well (no call leaves the subscriber locked)")
+	verif_Assert(v.s.SyncOneEntry(context.Background(), v.peer, chain[0]) != nil, "a single-entry sync after Close is refused")
 	verif_Assert(v.s.Announce(context.Background(), chain[0], v.peer) != nil, "an announcement after Close is refused")
 	ch, cancel := v.s.OnSyncFinished()
 	cancel()
@@ -98,4 +101,26 @@ func VerifC15_CloseRaces() {
 	verif_Assert(hooksAfterClose == 0, "no block-hook call after Close returned")
 	lt := verif_LiveThreads()
 	verif_Assert(lt <= 0, "no goroutine started by the subscriber remains after Close")
+}
+
+// C15: Close with a concurrency limit while an announce-triggered sync is
+// still waiting for a free slot: Close returns, nothing is left behind.
+func VerifC15_CloseWithWaitingAnnounce() {
+	chainA := []cid.Cid{vCid(11)}
+	chainB := []cid.Cid{vCid(21)}
+	v := newLiveSub(chainA, 1) // at most one announce-triggered sync at a time
+	pidB := peer.ID("publisher-2")
+	syB := v.addPublisher(pidB, chainB)
+	v.sy.yield, syB.yield = true, true
+	// two publishers announce: one sync runs, the other waits for the slot
+	verif_Assume(v.s.Announce(context.Background(), chainA[0], v.peer) == nil)
+	verif_Assume(v.s.Announce(context.Background(), chainB[0], peer.AddrInfo{ID: pidB}) == nil)
+	if verif_Bool("letThemStart") {
+		verif_Yield()
+	}
+	verif_Assert(v.s.Close() == nil, "Close returns while an announce-triggered sync is waiting for a slot")
+	verif_Reach("closed")
+	verif_Quiesce()
+	verif_Assert(verif_LiveThreads() <= 0, "no goroutine started by the subscriber remains after Close")
+	verif_Assert(v.s.Close() == nil, "Close can be repeated")
 }
